@@ -45,7 +45,8 @@ theorem Inv.quiet_pc {c : Cfg} {o : Orders} {s s' : State} {t : Nat} (inv : Inv 
     (hcr : ∀ i, (s'.pc t).crAt i = (s.pc t).crAt i) (hlk : ∀ i, (s'.pc t).lkAt i = (s.pc t).lkAt i)
     (hlk3 : ∀ i, (s'.pc t).lk3At i = (s.pc t).lk3At i)
     (hpc : PcOK c o s' t) : Inv c o s' :=
-  inv.quiet_step q.ext q.wf q.tv q.hist hlt hown htslot hfv hpub hav hpv htkv hrecl hsv hpcs hcr hlk hlk3 hpc
+  inv.quiet_step q.ext q.wf q.tv q.hist hlt hown htslot hfv hpub hav hpv htkv
+    (fun e h => Or.inl (by rw [← hrecl]; exact h)) hsv hpcs hcr hlk hlk3 hpc
 
 /-! ### calls -/
 
@@ -77,7 +78,7 @@ theorem Inv.callLockT {c : Cfg} {o : Orders} {s : State} {t i : Nat} (inv : Inv 
   · intro i; simp [Epoch.callLockT, hidle, Pc.crAt]
   · intro i; simp [Epoch.callLockT, hidle, Pc.lkAt]
   · intro i; simp [Epoch.callLockT, hidle, Pc.lk3At]
-  · simp [PcOK, Epoch.callLockT]; exact inv.tslotOK t i hts
+  · simp [PcOK, Epoch.callLockT]; exact (inv.tslotOK t i hts).2
 
 theorem Inv.callUnlock {c : Cfg} {o : Orders} {s : State} {t i : Nat} (inv : Inv c o s) (hidle : s.pc t = .idle)
     (hown : s.own i = .held t) (hlt : 1 ≤ s.lt i) : Inv c o (callUnlock s t i) := by
